@@ -11,11 +11,11 @@ func TestVerifC14Sph(t *testing.T) {
 	core := c14Cfg{rbSizes: []int{1, 400, 1200}, sendSizes: []int{40, 1200, 1452}, ticksMS: []int{250}, coalesced: true, acks: true}
 	lean := c14Cfg{rbSizes: []int{1, 400, 1200}, sendSizes: []int{40, 1200, 1452}}
 	deep := c14Cfg{rbSizes: []int{1, 1200}, sendSizes: []int{1200}, noAckOnly: true, noRpInit: true}
-	// cheapest first: the deadline, if it ever strikes, cuts the largest search last
+	// (name, alphabet, depth quick, depth thorough, share of the thorough deadline, shares left)
 	explore.Main("C14", []explore.Part{
-		c14SphPart("amp-deep", deep, deep, 14, 20),
-		c14SphPart("amp-full", full, full, 5, 7),
-		c14SphPart("amp-core", core, core, 6, 7),
-		c14SphPart("amp-lean", lean, lean, 7, 9),
+		c14SphPart("amp-deep", deep, 14, 20, 1, 9),
+		c14SphPart("amp-full", full, 5, 7, 3, 8),
+		c14SphPart("amp-core", core, 6, 8, 2, 5),
+		c14SphPart("amp-lean", lean, 7, 9, 3, 3),
 	}, func(msg string) { t.Fatal(msg) })
 }
